@@ -177,7 +177,59 @@ VCrMap(ev) ==
       IF ccb = <<>> THEN "ok"
       ELSE Ok(IsVal(sc[7]) /\ sc[7][2] = SeqMin(ccb) /\ IsVal(sc[8]) /\ sc[8][2] = SeqMax(ccb) + 1, "chunk-relative-cds-start-end") >>) >>)
 
-Verdict(ev) == CASE ev[1] = "crmap" -> VCrMap(ev) [] ev[1] = "isect" -> VIsect(ev) [] ev[1] = "txgap" -> VTxGap(ev) [] ev[1] = "txpos" -> VTxPos(ev) [] ev[1] = "m1" -> VM1(ev) [] ev[1] = "tx" -> VTx(ev) [] ev[1] = "txiv" -> VTxIv(ev) [] OTHER -> "unknown-op"
+(* the block structure of a location on a chunk window [ws, we) (mirrored when the chunk lies on the minus strand): every
+   block clipped to the window and mapped, blocks that touch stay separate blocks, ascending *)
+RECURSIVE ClipRec(_, _, _, _, _)
+ClipRec(bs, k, ws, we, minus) ==
+  IF k > Len(bs) THEN <<>>
+  ELSE LET s == Max({bs[k][1], ws}) e == Min({bs[k][2], we})
+           rest == ClipRec(bs, k + 1, ws, we, minus) IN
+       IF s >= e THEN rest
+       ELSE IF minus THEN rest \o <<<<we - e, we - s>>>> ELSE <<<<s - ws, e - ws>>>> \o rest
+ClipBlocks(l, ws, we, minus) == IF IsEmptyLoc(l) THEN <<>> ELSE ClipRec(SortSeq(l[1], LAMBDA x, y : x[1] < y[1]), 1, ws, we, minus)
+BlocksPos(bs) == UNION {bs[k][1]..(bs[k][2] - 1) : k \in DOMAIN bs}
+SameBlocks(o, want) == IsVal(o) /\ (IF want = <<>> THEN IsEmptyLoc(o[2]) \/ o[2][1] = <<>>
+                                    ELSE ~IsEmptyLoc(o[2]) /\ SortSeq(o[2][1], LAMBDA x, y : x[1] < y[1] \/ (x[1] = y[1] /\ x[2] < y[2])) = want)
+GapsPos(bs) == IF bs = <<>> THEN {} ELSE (Min({bs[k][1] : k \in DOMAIN bs})..(Max({bs[k][2] : k \in DOMAIN bs}) - 1)) \ BlocksPos(bs)
+(* ["cracc", exons, cds, ws, we, minusChunk, accessors = <<name, outcome>>...] : the derived chunk-relative (and chromosome)
+   accessors of a transcript / feature built on a chunk, each against the block structure above *)
+VCrAcc(ev) ==
+  LET ex == ev[2] cds == ev[3] ws == ev[4] we == ev[5] minus == ev[6] coding == ~IsEmptyLoc(cds)
+      eb == ClipBlocks(ex, ws, we, minus) cb == ClipBlocks(cds, ws, we, minus) cst == FlipIf(minus, St(ex)) IN
+  FirstBad([k \in DOMAIN ev[7] |->
+     LET nm == ev[7][k][1] o == ev[7][k][2] IN
+     \* an object with nothing on its chunk may refuse to describe its chunk-relative structure
+     IF nm \in {"chunk_relative_blocks", "relative_blocks"} THEN
+        Ok(SameBlocks(o, eb) \/ (eb = <<>> /\ Rejected(o)), "accessor:chunk-relative-blocks")
+     ELSE IF nm = "num_chunk_relative_blocks" THEN
+        Ok((IsVal(o) /\ o[2] = Len(eb)) \/ (eb = <<>> /\ (Rejected(o) \/ (IsVal(o) /\ o[2] \in {0, 1}))), "accessor:num-chunk-relative-blocks")
+     ELSE IF nm = "chunk_relative_span" THEN
+        Ok(IF eb = <<>> THEN Rejected(o) \/ (IsVal(o) /\ LenLoc(o[2]) = 0)
+           ELSE IsVal(o) /\ ~IsEmptyLoc(o[2]) /\ o[2][1] = <<<<eb[1][1], eb[Len(eb)][2]>>>> /\ St(o[2]) = cst, "accessor:chunk-relative-span")
+     ELSE IF nm \in {"chunk_relative_gaps_location", "chunk_relative_intron_location"} THEN
+        Ok(IF eb = <<>> THEN Rejected(o) \/ (IsVal(o) /\ LenLoc(o[2]) = 0)
+           ELSE IsVal(o) /\ (IF GapsPos(eb) = {} THEN LenLoc(o[2]) = 0 ELSE ~IsEmptyLoc(o[2]) /\ PosSet(o[2]) = GapsPos(eb) /\ St(o[2]) = cst),
+           "accessor:chunk-relative-gaps")
+     ELSE IF nm \in {"chromosome_gaps_location", "chromosome_intron_location"} THEN
+        Ok(IsVal(o) /\ (IF GapsPos(SortSeq(ex[1], LAMBDA x, y : x[1] < y[1])) = {} THEN LenLoc(o[2]) = 0
+                         ELSE ~IsEmptyLoc(o[2]) /\ PosSet(o[2]) = GapsPos(ex[1]) /\ St(o[2]) = St(ex)), "accessor:chromosome-gaps")
+     ELSE IF nm = "cds_location" THEN
+        Ok(IF coding THEN IsVal(o) /\ ~IsEmptyLoc(o[2]) /\ PosSet(o[2]) = PosSet(cds) /\ St(o[2]) = St(ex) ELSE Rejected(o), "accessor:cds-location")
+     ELSE IF nm \in {"cds_chunk_relative_location", "chunk_relative_cds_blocks"} THEN
+        Ok(IF ~coding THEN Rejected(o)
+           ELSE IF cb = <<>> THEN Rejected(o) \/ (IsVal(o) /\ (IsEmptyLoc(o[2]) \/ LenLoc(o[2]) = 0))
+           ELSE IsVal(o) /\ ~IsEmptyLoc(o[2]) /\ BlocksPos(o[2][1]) = BlocksPos(cb) /\ St(o[2]) = cst, "accessor:cds-on-chunk")
+     ELSE "accessor:unknown"])
+(* ["fmap", blocks, ws, we, minusChunk, chunkPosToFeature, featurePosToChunk, seqPosToFeature, featurePosToSeq] : the four point
+   maps of a FeatureInterval built on a chunk (the generic twins of the transcript's) *)
+VFMap(ev) ==
+  LET ex == ev[2] ws == ev[3] we == ev[4] minus == ev[5] cb == ChunkBases(ex, ws, we, minus) IN
+  FirstBad(<<
+    Ok(PosToRelOK(ev[6], -1, cb), "feature:chunk-to-feature"),
+    Ok(RelToPosOK(ev[7], -1, cb), "feature:feature-to-chunk"),
+    Ok(PosToRelOK(ev[8], -1, Bases(ex)), "feature:sequence-to-feature"),
+    Ok(RelToPosOK(ev[9], -1, Bases(ex)), "feature:feature-to-sequence") >>)
+Verdict(ev) == CASE ev[1] = "cracc" -> VCrAcc(ev) [] ev[1] = "fmap" -> VFMap(ev) [] ev[1] = "crmap" -> VCrMap(ev) [] ev[1] = "isect" -> VIsect(ev) [] ev[1] = "txgap" -> VTxGap(ev) [] ev[1] = "txpos" -> VTxPos(ev) [] ev[1] = "m1" -> VM1(ev) [] ev[1] = "tx" -> VTx(ev) [] ev[1] = "txiv" -> VTxIv(ev) [] OTHER -> "unknown-op"
 Bad == {i \in DOMAIN Trace : Verdict(Trace[i]) # "ok"}
 ASSUME \A i \in Bad : PrintT(<<"BAD", i, Verdict(Trace[i])>>)
 ASSUME PrintT(<<"DONE", Len(Trace), Cardinality(Bad)>>)
